@@ -27,6 +27,10 @@ def B(bs):
 NONE = ["n"]
 
 
+def Z(xs):                   # frozenset of ints: members that < orders only partially
+    return ["z", sorted(set(xs))]
+
+
 def L(xs):
     return ["l", list(xs)]
 
@@ -57,9 +61,10 @@ RECS = [["r", 0, [[0, I(1)], [1, S("ab")]]], ["r", 1, [[0, I(2)], [1, S("a")]]],
         ["r", 5, [[0, T(False)], [1, S("")], [2, D([])], [3, NONE]]],
         ["r", 6, [[0, F(2)], [1, S("ab")], [2, L([L([])])], [3, T(True)]]]]
 REC_EMPTY = ["r", 7, []]     # an object without attributes
-FALSY = [I(0), S(""), B(b""), NONE, L([]), D([]), T(False), F(0)]
+FALSY = [I(0), S(""), B(b""), NONE, L([]), D([]), T(False), F(0), Z([])]
+SETS = [Z([]), Z([1]), Z([1, 2]), Z([3]), Z([2, 3]), Z([0]), Z([1, 2, 3])]
 NUMS = [I(0), I(1), T(False), T(True), F(0), F(2), F(1), I(2), I(-1), F(3), F(4)]
-SCALAR_KINDS = ("i", "t", "f", "s", "b", "n")
+SCALAR_KINDS = ("i", "t", "f", "s", "b", "n", "z")
 NUM_KINDS = ("i", "t", "f")
 USER_EXC = (1, 2, 3, 4, 7)
 STRS = ["", "a", "ab", "abc", "b", "c", "abcabc", "f1", "d1", "nope", "d1/g", "d1/../f1", "a\nc", "xé"]
@@ -198,6 +203,21 @@ FAM = {
         "leaves": [["Equals", I(0)], ["Equals", S("")], ["Equals", NONE], ["Equals", L([])], ["Equals", D([])],
                    ["Equals", B(b"")], ["Is", NONE], ["NotEquals", I(0)], ["IsInstance", ["none"]], ["Contains", S("")],
                    ["Contains", NONE], ["Equals", T(False)], ["IsInstance", ["int"]], ["NotEquals", F(0)]],
+    },
+    # members that < orders only partially (frozensets: subset), so sorting does not canonicalise a collection
+    "SET": {
+        "vals": [Z([]), Z([1]), Z([1, 2]), Z([3]), Z([0, 1])],
+        "leaves": [["Equals", Z([1, 2])], ["Contains", I(1)], ["HasLength", 1], ["IsInstance", ["set"]],
+                   ["Contains", T(True)], ["NotEquals", Z([])], ["Contains", F(0)], ["Equals", L([])]],
+    },
+    "LIST_SET": {
+        "vals": [L([]), L([Z([1, 2]), Z([3])]), L([Z([3]), Z([1, 2])]), L([Z([]), Z([1])]), L([Z([1]), Z([1])]),
+                 L([Z([1, 2]), Z([1]), Z([3])]), L([Z([3]), Z([1]), Z([1, 2])]), L([Z([2, 3]), Z([1, 3]), Z([1, 2])])],
+        "leaves": [["SameMembers", [Z([3]), Z([1, 2])]], ["SameMembers", [Z([1, 2]), Z([3])]],
+                   ["SameMembers", [Z([1]), Z([])]], ["Contains", Z([3])], ["HasLength", 2],
+                   ["SameMembers", [Z([1, 2]), Z([3]), Z([1])]], ["SameMembers", [Z([1, 2]), Z([1, 3]), Z([2, 3])]],
+                   ["Equals", L([Z([1, 2]), Z([3])])], ["SameMembers", [Z([1]), Z([1])]]],
+        "elem": "SET",
     },
     # numbers equal across types: 1 == True == 1.0, 0 == False == 0.0; bool is an int
     "NUM": {
@@ -376,7 +396,9 @@ class St:
 def rand_scalar(rng, kind=None):
     if kind is None and rng.random() < 0.2:
         return rng.choice([x for x in FALSY if is_scalar(x)])
-    kind = kind or rng.choice("iiissbntf#")
+    kind = kind or rng.choice("iiissbntf#z")
+    if kind == "z":
+        return rng.choice(SETS) if rng.random() < 0.7 else Z(rng.sample(range(0, 5), rng.randint(0, 3)))
     if kind == "#":                 # a number of any of the three types, small so that equal ones meet
         return rng.choice(NUMS)
     if kind == "i":
@@ -409,7 +431,7 @@ def rand_plain(rng, d=2):
     if d == 0 or r < 0.45:
         return rand_scalar(rng)
     if r < 0.75:
-        kind = rng.choice(["i", "i", "s", "b", "#", "#", None])
+        kind = rng.choice(["i", "i", "s", "b", "#", "#", "z", None])
         return L([rand_scalar(rng, kind) if kind else rand_plain(rng, d - 1) for _ in range(rng.randint(0, 4))])
     if r < 0.93:
         ks = rng.sample(["a", "b", "c", "d"], rng.randint(0, 3)) if rng.random() < 0.65 else None
@@ -433,7 +455,7 @@ def rand_value(rng):
     return RAISE(rng.choice([1, 2, 2, 4, 7, 7, 5, 6, 8]), rng.choice(ARGS))
 
 
-TYS = ["int", "bool", "float", "str", "bytes", "none", "list", "dict", "rec", "object", "tuple", "func", ["exc", 0], ["exc", 1],
+TYS = ["int", "bool", "float", "set", "str", "bytes", "none", "list", "dict", "rec", "object", "tuple", "func", ["exc", 0], ["exc", 1],
        ["exc", 2], ["exc", 3], ["exc", 7], ["exc", 5]]
 
 
@@ -483,6 +505,8 @@ def gm(rng, d, vals, st, top=False):
                             F(rng.choice([0, 2, 194]))])
         elif "s" in shapes:
             n = rng.choice([S(rng.choice(STRS)), I(1), B(b"a")])
+        elif "z" in shapes:
+            n = rng.choice(NUMS + [S("a"), NONE, L([]), Z([1])])
         elif "l" in shapes:
             elems = [x for v in vals if v[0] == "l" for x in v[1]]
             n = near(rng, elems, lambda: rand_plain(rng, 1))
@@ -506,7 +530,7 @@ def gm(rng, d, vals, st, top=False):
     if shapes and shapes <= {"b"}:
         add(lw, lambda: [rng.choice(["LessThan", "GreaterThan"]), B(rng.choice(BYTESS))])
         add(2 * lw, lambda: [rng.choice(["StartsWith", "EndsWith"]), B(rng.choice(BYTESS)[:2])])
-    if shapes and shapes <= {"s", "b", "l", "d", "x"}:
+    if shapes and shapes <= {"s", "b", "l", "d", "x", "z"}:
         add(lw, lambda: ["HasLength", rng.randint(0, 3)])
         if d > 0:
             def lens():
@@ -670,6 +694,42 @@ def dict_special(rng):
     elif r < 0.5 and not numeric:
         # the same verdict one level down: the dict sits under a key of an outer dict
         m, v = [rng.choice(["MatchesDict", "ContainsDict", "ContainedByDict"]), [[S("k"), m]]], D([[S("k"), v]])
+    return m, v
+
+
+def members_special(rng):
+    """SameMembers where sorting cannot stand in for comparing members: members that < orders only partially
+    (frozensets), members equal across types (1 / True / 1.0), members of several types; the expected list is a
+    permutation of the observed one, sometimes with one member changed, dropped or repeated"""
+    r = rng.random()
+    if r < 0.6:
+        pool = SETS + [Z([1, 3]), Z([0, 2])]
+    elif r < 0.85:
+        pool = NUMS
+    else:
+        pool = SETS[:4] + NUMS[:6] + [NONE, S(""), S("a"), B(b"")]
+    obs = [rng.choice(pool) for _ in range(rng.choice([0, 1, 2, 2, 3, 3, 4]))]
+    exp = list(obs)
+    rng.shuffle(exp)
+    c = rng.random()
+    if exp and c < 0.15:
+        exp[rng.randrange(len(exp))] = rng.choice(pool)
+    elif exp and c < 0.25:
+        exp.pop(rng.randrange(len(exp)))
+    elif exp and c < 0.35:
+        exp.append(rng.choice(exp))
+    elif c < 0.45:
+        exp = [twin(rng, x) for x in exp]
+    m, v = ["SameMembers", exp], L(obs)
+    w = rng.random()
+    if w < 0.15:
+        m = ["Not", m]
+    elif w < 0.3:
+        m, v = ["AllMatch", m], L([v, L(obs[::-1])])
+    elif w < 0.4:
+        m = ["Annotate", 2, m]
+    elif w < 0.5:
+        m, v = ["MatchesDict", [[S("k"), m]]], D([[S("k"), v]])
     return m, v
 
 
@@ -844,6 +904,13 @@ def generate(rng, tier):
         (["AfterPreprocessing", 4, False, ["Equals", I(2)]], T(True)), (["AfterPreprocessing", 4, True, ["Equals", I(1)]], F(0)),
         (["Raises", None], RET(T(False))), (["Raises", None], RET(F(0))),
         (["MatchesException", True, [2], [T(True)], None], X(2, [I(1)])),
+        # members that are only partially ordered: the same members in another order
+        (["SameMembers", [Z([1, 2]), Z([3])]], L([Z([3]), Z([1, 2])])),
+        (["SameMembers", [Z([1, 2]), Z([3])]], L([Z([3]), Z([1])])),
+        (["Not", ["SameMembers", [Z([1]), Z([2]), Z([1, 2])]]], L([Z([1, 2]), Z([2]), Z([1])])),
+        (["SameMembers", [Z([]), I(0), NONE]], L([NONE, Z([]), T(False)])),
+        (["Contains", T(True)], Z([1, 2])), (["Contains", L([])], Z([1])), (["Equals", Z([])], L([])),
+        (["AfterPreprocessing", 1, False, ["Equals", I(0)]], Z([])), (["IsInstance", ["set"]], Z([])),
         # empty containers one level down
         (["AllMatch", ["AnyMatch", ["Equals", I(1)]]], L([L([I(1)]), L([])])),
         (["AnyMatch", ["AnyMatch", ["Equals", I(1)]]], L([L([])])),
@@ -860,7 +927,7 @@ def generate(rng, tier):
     # exhaustive to depth 1 over the full leaf sets (every family), strided in the quick tier
     d1 = []
     for fam in ("INT", "STR", "BYTES", "LIST_INT", "LIST_STR", "DICT", "REC", "EXC", "CALLU", "FALSY", "NUM", "LIST_NUM",
-                "DICT_NUM", "DICT_LIST", "LIST_LIST"):
+                "DICT_NUM", "DICT_LIST", "LIST_LIST", "SET", "LIST_SET"):
         d1 += list(enum_cases(fam, 1, None))
     for e in [["Raises", None]] + [["Raises", x] for x in enum("EXC", 1, 4)]:
         d1 += [(e, v) for v in CALL_ALL]
@@ -887,6 +954,10 @@ def generate(rng, tier):
     for _ in range(450 if quick else 6000):
         m, v = dict_special(rng)
         cases.append(mk_case(m, v))
+    # SameMembers over partially ordered / cross-type members
+    for _ in range(150 if quick else 3000):
+        m, v = members_special(rng)
+        cases.append(mk_case(m, v))
     # MatchesStructure over falsy attribute values
     for _ in range(200 if quick else 3000):
         m, v = struct_special(rng)
@@ -896,7 +967,7 @@ def generate(rng, tier):
         m, v = nested_special(rng)
         cases.append(mk_case(m, v))
     # random, depth <= 4
-    for _ in range(1800 if quick else 40000):
+    for _ in range(1700 if quick else 40000):
         st = St(rng)
         v = rand_value(rng)
         m = gm(rng, rng.choice([1, 2, 2, 3, 3, 4]), [v], st, top=True)
